@@ -3,6 +3,7 @@ import CookModel.Lemmas.Serde
 import CookModel.Lemmas.SerdeAudit
 import CookModel.Lemmas.SerdeMods
 import CookModel.Lemmas.SerdeModsParsed
+import CookModel.Lemmas.SerdeEq
 /-
   C15  Recipes survive serialization.
 
@@ -330,4 +331,136 @@ example : (parseModifiers (α := Rat) [⟨.minus, ['-'], 1⟩, ⟨.question, ['?
     (parseModifiers (α := Rat) [⟨.at, ['@'], 1⟩, ⟨.and, ['&'], 2⟩, ⟨.plus, ['+'], 3⟩] 1
       ⟨[], 0, ⟨0⟩, C15_exCs, #[], none⟩).1.flags.val.bits = 19 := by
   decide +kernel
+/-! ### second audit (wave 5, notes/audit-C15.md): what "an EQUAL recipe" means — the model of `==`
+
+  `eqScalableRecipe meq` (Side/SerdeEq.lean) is `ScalableRecipe == ScalableRecipe` as the source defines it: derived,
+  all seven fields of `Recipe`, all fields of every component, numbers BY VALUE (`impl PartialEq for Number`), the
+  metadata maps by the YAML library's equality `meq`.  None of the compared fields is `#[serde(skip)]`; the only
+  skipped field (the payload of `ScaleOutcome::Error`) belongs to `ScaledRecipe`, which has no `==`.  The f64 instance
+  is compared with the real `==` by the operation `eq scalable`.  The theorems above state the round trip with Lean's
+  `=` (structural identity, which is finer than `==`); the ones below conclude the real `==`, which additionally needs
+  `==` to be reflexive on the recipe: no number may have a NaN value. -/
+
+/-- **The hypotheses about f64 and the JSON library, stated once** (`F64Hyp`, Lemmas/SerdeEq.lean): the number codec
+    round-trips finite values (serde_json with `float_roundtrip`) and a finite value is `==` to itself (IEEE-754).
+    Over exact rationals the second is a theorem, so `F64Hyp` is the codec hypothesis alone; and under `F64Hyp` a
+    number whose value is finite is `==` to itself. -/
+theorem C15_f64_hypotheses :
+    (∀ (c : NumCodec Rat), c.RoundTrips → F64Hyp c) ∧
+    (∀ {α} [Arith α] (c : NumCodec α), F64Hyp c → c.RoundTrips) ∧
+    (∀ {α} [Arith α] (c : NumCodec α), F64Hyp c → ∀ n : Number α, Arith.isFinite n.value = true → numberSelfEq n) :=
+  ⟨seq_f64Hyp_rat, fun _ h => h.roundTrips, fun _ h n hn => seq_numberSelfEq_of_finite h n hn⟩
+
+/-- `==` is reflexive exactly as far as its numbers allow: a recipe none of whose numbers has a NaN value (over f64:
+    in particular every recipe whose number VALUES are finite) is `==` to itself, the metadata library's equality
+    being reflexive.  (An equality of `Number` that is not reflexive at some finite value — a strict tolerance test
+    that fails at 0, say — violates this.) -/
+theorem C15_eq_reflexive {α} [Arith α] (meq : Metadata → Metadata → Bool)
+    (r : FullRecipe α (ScalableValue α) Servings) (hm : meq r.metadata r.metadata = true)
+    (h : RecipeSelfEq scalableSelfEq r.recipe) : eqScalableRecipe meq r r = true :=
+  seq_eqScalableRecipe_refl r hm h
+
+/-- **"Deserializes to an EQUAL recipe", with the code's own `==`**: a parsed-type recipe with finite numbers (and
+    none with a NaN value), the declared modifier flags and JSON-representable metadata serializes to JSON that
+    deserializes to a recipe `r'` with `r' == r` (and `r == r'`). -/
+theorem C15_roundtrip_equal {α} [Arith α] (c : NumCodec α) (hc : c.RoundTrips) (meq : Metadata → Metadata → Bool)
+    (r : FullRecipe α (ScalableValue α) Servings)
+    (hfin : RecipeFinite scalableFinite r.recipe) (hmods : RecipeModsKnown r.recipe)
+    (hself : RecipeSelfEq scalableSelfEq r.recipe) (hm : meq r.metadata r.metadata = true) :
+    ∃ r', decScalableRecipe c (encScalableRecipe c r) = some r' ∧
+      eqScalableRecipe meq r' r = true ∧ eqScalableRecipe meq r r' = true :=
+  ⟨r, C15_decode_encode_scalable c hc r hfin hmods, C15_eq_reflexive meq r hm hself, C15_eq_reflexive meq r hm hself⟩
+
+/-- **`==` sees nothing the JSON does not carry**: two recipes (finite numbers, declared flags; the first without
+    NaN values) with the same JSON image are `==`.  So no state outside the serialized fields — a cache, a
+    capacity hint, a skipped field — takes part in the equality of `ScalableRecipe`. -/
+theorem C15_eq_sees_only_json {α} [Arith α] (c : NumCodec α) (hc : c.RoundTrips) (meq : Metadata → Metadata → Bool)
+    (a b : FullRecipe α (ScalableValue α) Servings)
+    (hfa : RecipeFinite scalableFinite a.recipe) (hma : RecipeModsKnown a.recipe)
+    (hfb : RecipeFinite scalableFinite b.recipe) (hmb : RecipeModsKnown b.recipe)
+    (hself : RecipeSelfEq scalableSelfEq a.recipe) (hm : meq a.metadata a.metadata = true)
+    (h : encScalableRecipe c a = encScalableRecipe c b) : eqScalableRecipe meq a b = true := by
+  have ha := C15_decode_encode_scalable c hc a hfa hma
+  have hb := C15_decode_encode_scalable c hc b hfb hmb
+  rw [h, hb] at ha
+  have e : b = a := Option.some.inj ha
+  subst e
+  exact C15_eq_reflexive meq b hm hself
+
+/-- **`==` compares every serialized field**: if two recipes are `==` then their metadata maps are equal for the YAML
+    library, their sections (steps, items, texts) and servings are identical, the three component tables and the
+    inline quantities have the same lengths, and position by position the ingredients agree in name, alias, note,
+    recipe reference, relation (reference target included) and modifiers, and their quantities are `==` (same unit
+    text, values `==`); likewise cookware and timers. -/
+theorem C15_eq_compares_every_field {α} [Arith α] (meq : Metadata → Metadata → Bool)
+    (a b : FullRecipe α (ScalableValue α) Servings) (h : eqScalableRecipe meq a b = true) :
+    meq a.metadata b.metadata = true ∧ a.recipe.sections = b.recipe.sections ∧ a.data = b.data ∧
+    (a.recipe.ingredients.length = b.recipe.ingredients.length ∧
+      ∀ (k : Nat) i j, a.recipe.ingredients[k]? = some i → b.recipe.ingredients[k]? = some j →
+        i.name = j.name ∧ i.alias = j.alias ∧ i.note = j.note ∧ i.reference = j.reference ∧
+        i.relation = j.relation ∧ i.modifiers = j.modifiers ∧
+        eqOpt (eqQuantity eqScalable) i.quantity j.quantity = true) ∧
+    (a.recipe.cookware.length = b.recipe.cookware.length ∧
+      ∀ (k : Nat) i j, a.recipe.cookware[k]? = some i → b.recipe.cookware[k]? = some j →
+        i.name = j.name ∧ i.alias = j.alias ∧ i.note = j.note ∧ i.relation = j.relation ∧
+        i.modifiers = j.modifiers ∧ eqOpt eqScalable i.quantity j.quantity = true) ∧
+    (a.recipe.timers.length = b.recipe.timers.length ∧
+      ∀ (k : Nat) i j, a.recipe.timers[k]? = some i → b.recipe.timers[k]? = some j →
+        i.name = j.name ∧ eqOpt (eqQuantity eqScalable) i.quantity j.quantity = true) ∧
+    a.recipe.inlineQuantities.length = b.recipe.inlineQuantities.length := by
+  simp only [eqScalableRecipe, eqRecipe, Bool.and_eq_true, decide_eq_true_eq] at h
+  obtain ⟨⟨⟨⟨⟨⟨hm, hs⟩, hi⟩, hc⟩, ht⟩, hq⟩, hd⟩ := h
+  obtain ⟨hil, hik⟩ := seq_eqList_true _ _ hi
+  obtain ⟨hcl, hck⟩ := seq_eqList_true _ _ hc
+  obtain ⟨htl, htk⟩ := seq_eqList_true _ _ ht
+  refine ⟨hm, hs, hd, ⟨hil, ?_⟩, ⟨hcl, ?_⟩, ⟨htl, ?_⟩, (seq_eqList_true _ _ hq).1⟩
+  · intro k i j hi' hj'
+    have := hik k i j hi' hj'
+    simp only [eqIngredient, Bool.and_eq_true, decide_eq_true_eq] at this
+    obtain ⟨⟨⟨⟨⟨⟨h1, h2⟩, h3⟩, h4⟩, h5⟩, h6⟩, h7⟩ := this
+    exact ⟨h1, h2, h4, h5, h6, h7, h3⟩
+  · intro k i j hi' hj'
+    have := hck k i j hi' hj'
+    simp only [eqCookware, Bool.and_eq_true, decide_eq_true_eq] at this
+    obtain ⟨⟨⟨⟨⟨h1, h2⟩, h3⟩, h4⟩, h5⟩, h6⟩ := this
+    exact ⟨h1, h2, h4, h5, h6, h3⟩
+  · intro k i j hi' hj'
+    have := htk k i j hi' hj'
+    simp only [eqTimer, Bool.and_eq_true, decide_eq_true_eq] at this
+    exact ⟨this.1, this.2⟩
+
+/-- Numbers are compared BY VALUE (`whole + err + num/den` against the decimal), not by spelling: over ℚ two numbers
+    are `==` iff their values are equal — `1/2` written as a fraction equals `0.5`, although their JSON images
+    differ; and a unit text, a lock (`Fixed` / `Linear`) or a text value must agree literally. -/
+theorem C15_eq_number_by_value (x y : Number Rat) (u u' : Option Str) :
+    (eqNumber x y = true ↔ x.value = y.value) ∧
+    (eqQuantity eqScalable ⟨.linear (.number x), u⟩ ⟨.linear (.number y), u'⟩ = true ↔ x.value = y.value ∧ u = u') ∧
+    eqScalable (.linear (.number x)) (.fixed (.number x)) = false := by
+  refine ⟨seq_eqNumber_rat x y, ?_, rfl⟩
+  simp [eqQuantity, eqScalable, eqValue, seq_eqNumber_rat]
+
+/-- Over exact rationals, for EVERY recipe `parse` returns (any environment and input), with any JSON-representable
+    metadata and servings: it serializes to JSON that deserializes to a recipe `==` to it — no premise on the
+    recipe, only the codec hypothesis and the reflexivity of the YAML library's map equality. -/
+theorem C15_roundtrip_parsed_equal_rat (c : NumCodec Rat) (hc : c.RoundTrips) (meq : Metadata → Metadata → Bool)
+    (hmeq : ∀ m, meq m m = true) (env : Env) (input : Str) (col : Col Rat)
+    (h : (parseRecipe (α := Rat) env input).output = some col) (m : Metadata) (sv : Servings) :
+    ∃ r', decScalableRecipe c (encScalableRecipe c ⟨m, col.toRecipe, sv⟩) = some r' ∧
+      eqScalableRecipe meq r' ⟨m, col.toRecipe, sv⟩ = true :=
+  have hm := C15_parsed_recipe_mods_known env input col h
+  let ⟨r', h1, h2, _⟩ := C15_roundtrip_equal c hc meq ⟨m, col.toRecipe, sv⟩ (recipeFinite_rat _ scalableFinite_rat _) hm
+    (seq_recipeSelfEq_rat _ seq_scalableSelfEq_rat _) (hmeq m)
+  ⟨r', h1, h2⟩
+
+/-- the equality the driver uses for metadata maps (same entries, same order) is reflexive, so the hypotheses of the
+    theorems above are satisfiable; on the example recipe `==` holds, and it fails as soon as a unit differs;
+    `1/2` as a fraction `==` `0.5` -/
+example : (∀ m, metaBeq m m = true) ∧ eqScalableRecipe metaBeq Serde.exRecipe Serde.exRecipe = true ∧
+    RecipeSelfEq scalableSelfEq Serde.exRecipe.recipe :=
+  ⟨seq_metaBeq_refl,
+   C15_eq_reflexive metaBeq _ (seq_metaBeq_refl _) (seq_recipeSelfEq_rat _ seq_scalableSelfEq_rat _),
+   seq_recipeSelfEq_rat _ seq_scalableSelfEq_rat _⟩
+example : eqNumber (Number.fraction 0 1 2 (0 : Rat)) (.regular (1/2)) = true ∧
+    eqQuantity eqScalable (⟨.linear (.number (.regular (1 : Rat))), some ['g']⟩ : Quantity (ScalableValue Rat))
+      ⟨.linear (.number (.regular 1)), some ['k', 'g']⟩ = false := by decide +kernel
 end Cook
